@@ -1012,7 +1012,8 @@ theorem tieA_isort_sections :
       = Generated.C12.isortSections.map (fun s => (s, isInStdlib (Section.ofString s))) ∧
     (∀ s ∈ Generated.C12.isortSections, Section.ofString s ≠ .other ∧
         isInStdlib (Section.ofString s) = stdlibSection (Section.ofString s)) ∧
-    Generated.C12.isInStdlibBody = ["return place_module(name) in (sections.STDLIB, sections.FUTURE)"] ∧
+    Generated.C12.isInStdlibBody = ["try:\n    section = place_module(name)\nexcept (OSError, RuntimeError):\n    return False",
+      "return section in (sections.STDLIB, sections.FUTURE)"] ∧
     Generated.C12.isInPipConsultsIsort = false ∧
     ("__future__", "FUTURE") ∈ Generated.C12.placeSamples ∧ ("os.path", "STDLIB") ∈ Generated.C12.placeSamples ∧
     ("collections.abc", "STDLIB") ∈ Generated.C12.placeSamples ∧
